@@ -284,3 +284,59 @@ def r6(ctx):
                      '%s mutates shared state through %s (line %d)' % (norm_path(b.path), t.callee_res(), t.span['line']), t.span)
             n += 1
     ctx.ok(None, 'scanned %d per-item bodies, %d interior-mutability sites' % (len(scope), n))
+
+
+@rule('C08', 'R-C08-7', 'T6 (independence of the worker count)',
+      'the worker count of the loaders (the u8 constructor argument / field) flows only into the thread-count argument of pipe(..) '
+      'and into its own field: no batching, prefetching, seeding, skipping or striding value depends on it')
+def r7(ctx):
+    from analysis.seq import subst
+
+    def tainted(tree, pats):
+        # the pipe(.., n) call itself is the one legitimate consumer: what it returns does not carry the count
+        tree = subst(tree, lambda x: ('pipe',) if x[0] == 'call' and re.search(r'::pipe$', x[1]) else None)
+        return any(has(tree, p) for p in pats)
+    n = 0
+    for cls in ('TrainLoader', 'InferenceLoader'):
+        new = ctx.body('data::%s::new' % cls)
+        u8s = [i for i in range(1, new.arg_count + 1) if new.local_ty(i) == 'u8']
+        if len(u8s) != 1:
+            raise AnchorMissing('%s::new: the worker-count (u8) parameter (found %d)' % (cls, len(u8s)))
+        adt = ctx.facts.adts.get('data::%s' % cls)
+        fld = [fl['name'] for v in (adt['variants'] if adt else ()) for fl in v['fields'] if fl['ty'] == 'u8']
+        pats = [('arg', u8s[0], ANY)]
+        bodies = [(new, pats)]
+        if fld:
+            fp = [('field', ('arg', 1, ANY), fld[0])]
+            for b in ctx.facts.bodies:
+                if b.impl_self and norm_path(b.impl_self).endswith('data::%s' % cls) and b.kind != 'Closure' and b is not new and not b.span['exp']:
+                    bodies.append((b, fp))
+        for b, pp in bodies:
+            for t in b.terms('call'):
+                if not t.args:
+                    continue
+                name = t.callee_res() or ''
+                for i, a in enumerate(t.args):
+                    tr = sym(b, a)
+                    if not (tainted(tr, pp) or (re.search(r'::pipe$', name) and any(has(tr, p_) for p_ in pp))):
+                        continue
+                    n += 1
+                    ok = (re.search(r'PipelineIterator.*::pipe$|::pipe$', name) and i == len(t.args) - 1 and match(core(tr), pp[0])) or \
+                        re.search(r'fmt::|Arguments::new|Debug|Display', name) is not None
+                    ctx.require(bool(ok), b, 'worker-count-use|' + name.rsplit('::', 1)[-1], '%s: the worker count is passed to pipe(.., n) only (line %d)' % (cls, t.span['line']),
+                                '%s: the worker count flows into `%s` (argument %d, line %d): the item / batch sequence must be identical for every worker count' % (
+                                    cls, name, i, t.span['line']), t.span)
+            # struct literal: only its own field may hold it
+            for v, bb in ret_values(b):
+                for x in walk(v):
+                    if isinstance(x, tuple) and x and x[0] == 'agg' and x[1] == 'adt' and x[2].endswith('data::%s::%s' % (cls, cls)) or \
+                            (isinstance(x, tuple) and x and x[0] == 'agg' and x[1] == 'adt' and norm_path(x[2]).endswith('%s::%s' % (cls, cls))):
+                        fields = [fl['name'] for vv in adt['variants'] for fl in vv['fields']] if adt else []
+                        for fn_, val in zip(fields, x[3]):
+                            if tainted(val, pp):
+                                n += 1
+                                ctx.require(fn_ in fld and match(core(val), pp[0]), b, 'worker-count-field|' + fn_,
+                                            '%s { %s: worker count } stores the count unchanged' % (cls, fn_),
+                                            '%s: field `%s` is computed from the worker count (%s)' % (cls, fn_, show_in(b, val)[:80]))
+    if n == 0:
+        raise AnchorMissing('no use of the worker count found in the loaders')
